@@ -52,4 +52,122 @@ theorem bitLen_eq (y k : Nat) (h1 : y < 2 ^ (k+1)) (h2 : 2 ^ k ≤ y) : bitLen y
   have b : ¬ bitLen y ≤ k := fun h => by have := (bitLen_le_iff y k).mp h; omega
   omega
 
+/-- masking the length marker off the first byte leaves the high value bits -/
+theorem and_marker (e : Nat) (he : 1 ≤ e ∧ e ≤ 8) (x : Nat) (hx : x < 2 ^ (8 - e)) :
+    (x + (256 - 2 ^ (8 - e))) &&& (255 >>> e) = x := by
+  obtain ⟨h1, h8⟩ := he
+  have : e = 1 ∨ e = 2 ∨ e = 3 ∨ e = 4 ∨ e = 5 ∨ e = 6 ∨ e = 7 ∨ e = 8 := by omega
+  rcases this with rfl | rfl | rfl | rfl | rfl | rfl | rfl | rfl <;> (revert x; decide)
+
+theorem bitLen_zero : bitLen 0 = 0 := by rw [bitLen]; simp
+
+/-- the number of leading one bits of the first byte is the number of extra bytes -/
+theorem leadOnes_marker (e : Nat) (he : 1 ≤ e ∧ e ≤ 8) (x : Nat) (hx : x < 2 ^ (7 - e)) (first : UInt8)
+    (hf : first.toNat = x + (256 - 2 ^ (8 - e))) : leadOnes first = e := by
+  obtain ⟨h1, h8⟩ := he
+  unfold leadOnes
+  rw [hf]
+  have : e = 1 ∨ e = 2 ∨ e = 3 ∨ e = 4 ∨ e = 5 ∨ e = 6 ∨ e = 7 ∨ e = 8 := by omega
+  rcases this with rfl | rfl | rfl | rfl | rfl | rfl | rfl | rfl <;> simp only [Nat.reducePow, Nat.reduceSub] at hx ⊢
+  · rw [bitLen_eq (255 - (x + 128)) 6 (by simp only [Nat.reduceAdd, Nat.reducePow]; omega) (by simp only [Nat.reducePow]; omega)]
+  · rw [bitLen_eq (255 - (x + 192)) 5 (by simp only [Nat.reduceAdd, Nat.reducePow]; omega) (by simp only [Nat.reducePow]; omega)]
+  · rw [bitLen_eq (255 - (x + 224)) 4 (by simp only [Nat.reduceAdd, Nat.reducePow]; omega) (by simp only [Nat.reducePow]; omega)]
+  · rw [bitLen_eq (255 - (x + 240)) 3 (by simp only [Nat.reduceAdd, Nat.reducePow]; omega) (by simp only [Nat.reducePow]; omega)]
+  · rw [bitLen_eq (255 - (x + 248)) 2 (by simp only [Nat.reduceAdd, Nat.reducePow]; omega) (by simp only [Nat.reducePow]; omega)]
+  · rw [bitLen_eq (255 - (x + 252)) 1 (by simp only [Nat.reduceAdd, Nat.reducePow]; omega) (by simp only [Nat.reducePow]; omega)]
+  · rw [bitLen_eq (255 - (x + 254)) 0 (by simp only [Nat.reduceAdd, Nat.reducePow]; omega) (by simp only [Nat.reducePow]; omega)]
+  · have : x = 0 := by omega
+    subst this
+    simp [bitLen_zero]
+
+/-- decVint on a first byte carrying the marker for `e` extra bytes -/
+theorem decVint_core (e : Nat) (he : 1 ≤ e ∧ e ≤ 8) (x : Nat) (hx : x < 2 ^ (7 - e)) (first : UInt8)
+    (hf : first.toNat = x + (256 - 2 ^ (8 - e))) (r : Bytes) (hr : ¬ r.length < e) :
+    decVint (first :: r) =
+      some (decIntZigZag ((r.take e).foldl (fun acc b => (acc * 256 + b.toNat) % 2^64) x), r.drop e) := by
+  have hx8 : x < 2 ^ (8 - e) := by
+    have : 2 ^ (7 - e) ≤ 2 ^ (8 - e) := Nat.pow_le_pow_right (by decide) (by omega)
+    omega
+  have hge : ¬ first.toNat < 128 := by
+    rw [hf]
+    have : 2 ^ (8 - e) ≤ 2 ^ 7 := Nat.pow_le_pow_right (by decide) (by omega)
+    simp only [Nat.reducePow] at this
+    omega
+  have hl := leadOnes_marker e he x hx first hf
+  have ha : first.toNat &&& (255 >>> e) = x := by rw [hf]; exact and_marker e he x hx8
+  unfold decVint
+  simp only [if_neg hge, hl, ha, if_neg hr]
+
+/-- the multi-byte case: first byte = marker + high bits, then `e` bytes -/
+theorem decVint_multi (e : Nat) (he : 1 ≤ e ∧ e ≤ 8) (u : Nat) (hu : u < 2^64) (hx : u / 256 ^ e < 2 ^ (7 - e))
+    (rest : Bytes) :
+    decVint (beBytes (e + 1) (u + (256 - 2 ^ (8 - e)) * 256 ^ e) ++ rest) = some (decIntZigZag u, rest) := by
+  rw [beBytes_head, beBytes_add_mul, Nat.add_mul_div_right _ _ (Nat.pow_pos (by decide))]
+  have hdm : u = u / 256 ^ e * 256 ^ e + u % 256 ^ e := by
+    have := Nat.div_add_mod u (256 ^ e); rw [Nat.mul_comm] at this; exact this.symm
+  have hbn : beNat (beBytes e u) = u % 256 ^ e := beNat_beBytes e u
+  have hlen : (beBytes e u).length = e := beBytes_length e u
+  have hx8 : u / 256 ^ e < 2 ^ (8 - e) := by
+    have : 2 ^ (7 - e) ≤ 2 ^ (8 - e) := Nat.pow_le_pow_right (by decide) (by omega)
+    omega
+  have h256 : 2 ^ (8 - e) ≤ 256 := by
+    have : 2 ^ (8 - e) ≤ 2 ^ 8 := Nat.pow_le_pow_right (by decide) (by omega)
+    simpa using this
+  have hft : (byteOfNat (u / 256 ^ e + (256 - 2 ^ (8 - e)))).toNat = u / 256 ^ e + (256 - 2 ^ (8 - e)) := by
+    rw [byteOfNat_toNat]; exact Nat.mod_eq_of_lt (by omega)
+  have hfold : ((beBytes e u ++ rest).take e).foldl (fun acc b => (acc * 256 + b.toNat) % 2^64) (u / 256 ^ e) = u := by
+    rw [List.take_append_of_le_length (by omega), List.take_of_length_le (by omega)]
+    rw [fold_nomod _ _ (by rw [hlen, hbn, ← hdm]; exact hu), hlen, hbn, ← hdm]
+  have hdrop : (beBytes e u ++ rest).drop e = rest := by
+    rw [List.drop_append_of_le_length (by omega), List.drop_of_length_le (by omega)]; rfl
+  have hlenr : ¬ (beBytes e u ++ rest).length < e := by simp [hlen]
+  rw [List.cons_append, decVint_core e he _ hx _ hft _ hlenr, hfold, hdrop]
+
+/-- decVint (marshal.go) reads back what encVint wrote — the specification's signed vint — for EVERY int64, leaving
+    the rest of the input -/
+theorem decVint_specVint (n : Int) (h : fitsS 8 n = true) (rest : Bytes) :
+    decVint (specVint n ++ rest) = some (n, rest) := by
+  have hu := zigzag_lt n h
+  have hz : decIntZigZag (zigzag n) = n := by rw [decIntZigZag_spec _ hu, unzigzag_zigzag]
+  unfold specVint specUVint
+  generalize zigzag n = u at *
+  simp only
+  rcases uvintSize_cases u hu with ⟨hs, hb⟩ | ⟨hs, hb⟩ | ⟨hs, hb⟩ | ⟨hs, hb⟩ | ⟨hs, hb⟩ | ⟨hs, hb⟩ | ⟨hs, hb⟩ | ⟨hs, hb⟩ | ⟨hs, hb⟩ <;>
+    rw [hs]
+  · have hb' : u < 128 := by simpa using hb
+    have hft : (byteOfNat u).toNat = u := by rw [byteOfNat_toNat]; omega
+    simp only [beBytes, Nat.reducePow, Nat.reduceSub, Nat.zero_mul, Nat.add_zero, List.nil_append, List.cons_append]
+    unfold decVint
+    simp only [hft, if_pos hb', hz]
+  · rw [← hz]; exact decVint_multi 1 (by omega) u hu (by simp only [Nat.reducePow, Nat.reduceSub] at *; omega) rest
+  · rw [← hz]; exact decVint_multi 2 (by omega) u hu (by simp only [Nat.reducePow, Nat.reduceSub] at *; omega) rest
+  · rw [← hz]; exact decVint_multi 3 (by omega) u hu (by simp only [Nat.reducePow, Nat.reduceSub] at *; omega) rest
+  · rw [← hz]; exact decVint_multi 4 (by omega) u hu (by simp only [Nat.reducePow, Nat.reduceSub] at *; omega) rest
+  · rw [← hz]; exact decVint_multi 5 (by omega) u hu (by simp only [Nat.reducePow, Nat.reduceSub] at *; omega) rest
+  · rw [← hz]; exact decVint_multi 6 (by omega) u hu (by simp only [Nat.reducePow, Nat.reduceSub] at *; omega) rest
+  · rw [← hz]; exact decVint_multi 7 (by omega) u hu (by simp only [Nat.reducePow, Nat.reduceSub] at *; omega) rest
+  · rw [← hz]; exact decVint_multi 8 (by omega) u hu (by simp only [Nat.reducePow, Nat.reduceSub] at *; omega) rest
+
+/-- the three vints of a duration: months and days of int32, nanoseconds of int64 -/
+theorem decVints_encVints (m d n : Int) (hm : fitsS 4 m = true) (hd : fitsS 4 d = true) (hn : fitsS 8 n = true) :
+    decVints (encVints m d n) = some (m, d, n) := by
+  have hm8 := C12.fits4_fits8 m hm
+  have hd8 := C12.fits4_fits8 d hd
+  unfold encVints decVints
+  rw [encVint_spec m hm8, encVint_spec d hd8, encVint_spec n hn, List.append_assoc, decVint_specVint m hm8]
+  simp only
+  rw [decVint_specVint d hd8]
+  simp only
+  have := decVint_specVint n hn []
+  rw [List.append_nil] at this
+  rw [this]
+  simp only [C02Scalar.toS32_fits m hm, C02Scalar.toS32_fits d hd]
+
+theorem encVints_ne_nil (m d n : Int) (hm : fitsS 4 m = true) (hd : fitsS 4 d = true) (hn : fitsS 8 n = true) :
+    encVints m d n ≠ [] := by
+  intro h
+  have h1 := decVints_encVints m d n hm hd hn
+  rw [h] at h1
+  simp [decVints, decVint] at h1
+
 end C02Vint
